@@ -100,8 +100,11 @@ struct TxTruth {
 struct GBlock {
     cb: CompactBlock,
     truth: Vec<TxTruth>,
-    /// parsed header (hash, prev) when `cb.header` parses
+    /// parsed header (hash, prev) when `cb.header` parses — generator truth: the hash is the
+    /// double SHA-256 of the header bytes the generator wrote, not the accessor's answer
     hdr: Option<([u8; 32], [u8; 32])>,
+    /// the hash of the block this one must connect to
+    parent: [u8; 32],
     corruption: Vec<&'static str>,
 }
 
@@ -162,6 +165,36 @@ impl<'a> Gen<'a> {
         self.r.0.fill_bytes(&mut b);
         b
     }
+    /// A serialized block header naming `prev` as its parent, and its hash (double SHA-256).
+    /// `malformed`: 0 well-formed, 1 truncated, 2 non-canonical CompactSize, 3 trailing bytes
+    /// after a well-formed header (still parses; the hash covers the header proper).
+    fn mk_header(&mut self, prev: [u8; 32], malformed: u8) -> (Vec<u8>, Option<([u8; 32], [u8; 32])>) {
+        use sha2::{Digest, Sha256};
+        let mut h = vec![];
+        h.extend_from_slice(&(self.r.below(6) as i32).to_le_bytes());
+        h.extend_from_slice(&prev);
+        h.extend_from_slice(&self.rand32());
+        h.extend_from_slice(&self.rand32());
+        h.extend_from_slice(&(self.r.u64() as u32).to_le_bytes());
+        h.extend_from_slice(&(self.r.u64() as u32).to_le_bytes());
+        h.extend_from_slice(&self.rand32());
+        let n = *self.r.pick(&[0usize, 5, 252, 253, 1344]);
+        if malformed == 2 {
+            let n = 5usize;
+            h.extend_from_slice(&[0xfd, n as u8, 0]);
+            h.extend(self.r.bytes(n));
+            return (h, None);
+        }
+        if n < 253 { h.push(n as u8) } else { h.push(0xfd); h.extend_from_slice(&(n as u16).to_le_bytes()); }
+        h.extend(self.r.bytes(n));
+        let d: [u8; 32] = Sha256::digest(Sha256::digest(&h)).into();
+        match malformed {
+            1 => { let l = self.r.range(1, h.len() as u64 - 1) as usize; h.truncate(l); (h, None) }
+            3 => { let k = self.r.range(1, 40) as usize; h.extend(self.r.bytes(k)); (h, Some((d, prev))) }
+            _ => (h, Some((d, prev))),
+        }
+    }
+
     fn value(&mut self) -> u64 {
         match self.r.below(5) {
             0 => 0,
@@ -520,8 +553,21 @@ impl<'a> Gen<'a> {
                     ironwood_commitment_tree_size: pos[2] as u32,
                 });
             }
-            prev = cb.hash.clone().try_into().unwrap();
-            blocks.push(GBlock { cb, truth, hdr: None, corruption: vec![] });
+            // header modes: none (70%); header authoritative with raw fields consistent /
+            // different / empty / trailing bytes; unparsable header with raw fields authoritative
+            let parent = prev;
+            let mut hdr = None;
+            match self.r.below(20) {
+                0..=13 => {}
+                14 => { let (hb, t) = self.mk_header(parent, 0); cb.header = hb; hdr = t; cb.hash = t.unwrap().0.to_vec(); }
+                15 => { let (hb, t) = self.mk_header(parent, 0); cb.header = hb; hdr = t; cb.prev_hash = self.rand32().to_vec(); }
+                16 => { let (hb, t) = self.mk_header(parent, 0); cb.header = hb; hdr = t; cb.hash = vec![]; cb.prev_hash = vec![]; }
+                17 => { let (hb, t) = self.mk_header(parent, 3); cb.header = hb; hdr = t; }
+                18 => { let (hb, _) = self.mk_header(parent, 1); cb.header = hb; }
+                _ => { let (hb, _) = self.mk_header(parent, 2); cb.header = hb; }
+            }
+            prev = match hdr { Some((h, _)) => h, None => cb.hash.clone().try_into().unwrap() };
+            blocks.push(GBlock { cb, truth, hdr, parent, corruption: vec![] });
         }
 
         let mut ch = Chain { params, tracked, prior, nf_s, nf_o, nf_i, blocks, first_height: h0, kind_b };
@@ -571,7 +617,7 @@ impl<'a> Gen<'a> {
         let rbase = self.rand_base();
         let g = &mut ch.blocks[last];
         let nt = g.cb.vtx.len();
-        let which = self.force.unwrap_or_else(|| self.r.below(if self.search { 24 } else { 22 }));
+        let which = self.force.unwrap_or_else(|| { let w = self.r.below(27); if w == 24 { 27 } else { w } });
         let tag: &'static str = match which {
             0 => { g.cb.height = match self.r.below(4) { 0 => g.cb.height + 1, 1 => g.cb.height.saturating_sub(1), 2 => g.cb.height + 2, _ => 0 }; "height" }
             1 => { g.cb.height = *self.r.pick(&[1u64 << 32, (1u64 << 32) + g.cb.height, u64::MAX, (1u64 << 32) - 1]); "height-big" }
@@ -613,6 +659,42 @@ impl<'a> Gen<'a> {
                 "prior-sizes"
             }
             10 if nt > 0 => { let t = self.r.below(nt as u64) as usize; self.bad_len(&mut ch.blocks[last].cb.vtx[t].txid, 32); "txid-len" }
+            25 => {
+                // a parsable header naming ANOTHER parent, next to a raw prev_hash naming the right one
+                let parent = ch.blocks[last].parent;
+                let other = self.rand32();
+                let m = if self.r.chance(1, 4) { 3 } else { 0 };
+                let (hb, t) = self.mk_header(other, m);
+                let g = &mut ch.blocks[last];
+                g.cb.header = hb;
+                g.hdr = t;
+                g.cb.prev_hash = parent.to_vec();
+                "hdr-wrong-parent-raw-right"
+            }
+            26 => {
+                // the header names the right parent, the raw prev_hash another one / a wrong hash
+                let parent = ch.blocks[last].parent;
+                let (hb, t) = self.mk_header(parent, 0);
+                let junk = self.rand32();
+                let g = &mut ch.blocks[last];
+                g.cb.header = hb;
+                g.hdr = t;
+                g.cb.prev_hash = junk.to_vec();
+                if self.r.bool() { g.cb.hash = junk.to_vec(); }
+                "hdr-right-parent-raw-wrong"
+            }
+            27 => {
+                // unparsable header: the raw fields are authoritative, and the raw prev_hash is wrong
+                let parent = ch.blocks[last].parent;
+                let m = if self.r.bool() { 1 } else { 2 };
+                let (hb, _) = self.mk_header(parent, m);
+                let junk = self.rand32();
+                let g = &mut ch.blocks[last];
+                g.cb.header = hb;
+                g.hdr = None;
+                g.cb.prev_hash = junk.to_vec();
+                "hdr-malformed-raw-wrong"
+            }
             24 if nt > 1 => {
                 // two transactions of the block carry the same txid
                 let t = self.r.below(nt as u64 - 1) as usize;
@@ -914,7 +996,7 @@ fn main() {
     let argn = |name: &str| a.rest.iter().position(|x| x == name).map(|i| a.rest[i + 1].parse::<usize>().unwrap());
     let (n_ord, n_big, n_bad) = plan(&a);
     // fixed corpus: one chain per corruption kind that is a known finding or a repaired defect
-    const CORPUS: [u64; 8] = [1, 5, 4, 10, 11, 13, 9, 24];
+    const CORPUS: [u64; 11] = [1, 5, 4, 10, 11, 13, 9, 24, 25, 26, 27];
     let total = n_ord + n_big + n_bad + CORPUS.len();
     const SHARDS: usize = 3;
 
@@ -937,7 +1019,7 @@ fn main() {
                 loop {
                     let mut g = Gen { r: Rng::new(0xC05, 7_000_000 + 1000 * kind + k), accts: &accts, search: false, force: Some(kind) };
                     let ch = g.chain(false, false);
-                    if ch.blocks.last().unwrap().corruption.iter().all(|c| *c != "none") && ch.blocks.len() == 1 {
+                    if ch.blocks.last().unwrap().corruption.iter().all(|c| *c != "none") && ch.blocks.len() == 1 && (kind < 25 || ch.prior.is_some()) {
                         break ch;
                     }
                     k += 1;
@@ -1097,7 +1179,7 @@ fn main() {
     let mut cv: Vec<_> = corr_hist.into_iter().collect();
     cv.sort();
     stat(format!(
-        "{{\"chains\":{},\"corpus_chains\":8,\"ordinary\":{},\"big\":{},\"malformed_multi\":{},\"cases\":{},\"outputs_total\":{},\"outputs_per_block_hist_0_3_9_29_99_more\":{:?},\"variants\":\"inline; batched(threshold 100) x rayon threads 16,1,2,7\",\"batched_disagreements\":{},\"batched_error_identity_differs\":{},\"partial_applications\":{},\"outcomes\":{{{}}},\"corruptions\":{{{}}}}}",
+        "{{\"chains\":{},\"corpus_chains\":11,\"ordinary\":{},\"big\":{},\"malformed_multi\":{},\"cases\":{},\"outputs_total\":{},\"outputs_per_block_hist_0_3_9_29_99_more\":{:?},\"variants\":\"inline; batched(threshold 100) x rayon threads 16,1,2,7\",\"batched_disagreements\":{},\"batched_error_identity_differs\":{},\"partial_applications\":{},\"outcomes\":{{{}}},\"corruptions\":{{{}}}}}",
         total, n_ord, n_big, n_bad, n_cases, n_out, size_hist, alt_total, err_differs, st_partial,
         hv.iter().map(|(k, v)| format!("\"{}\":{}", k, v)).collect::<Vec<_>>().join(","),
         cv.iter().map(|(k, v)| format!("\"{}\":{}", k, v)).collect::<Vec<_>>().join(",")
